@@ -1,9 +1,10 @@
 #!/bin/bash
-# usage: seedverify.sh <seed dir> <scratch worktree>   - confirms a seeded change: applies to /repo HEAD,
-# existing tests pass with it, the demonstration fails with it and passes without it.
+# usage: seedverify.sh <seed dir> <scratch worktree> [base commit]  - confirms a seeded change: applies to the base
+# (default: /repo HEAD), existing tests pass with it, the demonstration fails with it and passes without it.
+# Prints one summary line: VERIFY <dir> base=<commit> applies=<0|1> demo_base_ok=<0|1> suites_ok=<n of 4> demo_fails_with_change=<0|1>
 set -u
-S=$1; W=$2
-git -C $W checkout -q -f --detach main && git -C $W clean -fdq
+S=$(realpath $1); W=$2; BASE=${3:-$(git -C /repo rev-parse --short HEAD)}
+git -C $W checkout -q -f --detach $BASE && git -C $W clean -fdq
 demo=$(ls $S/demo_test.go 2>/dev/null || ls $S/demo/main.go 2>/dev/null)
 pkgdir=$W/v2
 head -4 $demo | grep -q '/lib/' && pkgdir=$W/lib
@@ -11,12 +12,20 @@ place=$(head -3 $demo | grep -o 'place in [./a-z0-9]*' | head -1 | awk '{print $
 case "$place" in
   v2/|v2) pkgdir=$W/v2;; lib/|lib) pkgdir=$W/lib;; v2/jd/|v2/jd) pkgdir=$W/v2/jd;; ./|.) pkgdir=$W;;
 esac
-grep -q '^package main' $demo && pkgdir=$W
-if grep -q 'v2/jd' $S/notes.md 2>/dev/null && grep -q '^package main' $demo; then pkgdir=$W/v2/jd; fi
+if [ -z "$place" ]; then
+  grep -q '^package main' $demo && pkgdir=$W
+  if grep -q 'v2/jd' $S/notes.md 2>/dev/null && grep -q '^package main' $demo; then pkgdir=$W/v2/jd; fi
+fi
 run_demo() { cp $demo $pkgdir/zz_seed_demo_test.go; (cd $pkgdir && go test -mod=mod -vet=off -count=1 . 2>&1 | tail -3); rm -f $pkgdir/zz_seed_demo_test.go; }
-echo "== demo on unchanged tree (must pass)"; run_demo
-git -C $W apply $S/patch.diff || { echo "PATCH DOES NOT APPLY"; exit 1; }
+echo "== demo on unchanged tree (must pass)"; o1=$(run_demo); echo "$o1"
+db=0; echo "$o1" | grep -q '^ok' && db=1
+if ! git -C $W apply $S/patch.diff 2>/dev/null; then
+  echo "VERIFY $1 base=$BASE applies=0 demo_base_ok=$db suites_ok=0 demo_fails_with_change=0"; exit 1
+fi
 echo "== existing tests with the change (must pass)"
-(cd $W && go test -mod=mod -vet=off -count=1 ./... 2>&1 | tail -3); (cd $W/v2 && go test -mod=mod -vet=off -count=1 . ./jd 2>&1 | tail -3)
-echo "== demo with the change (must fail)"; run_demo
+o2=$( (cd $W && go test -mod=mod -vet=off -count=1 ./... 2>&1 | tail -4); (cd $W/v2 && go test -mod=mod -vet=off -count=1 . ./jd 2>&1 | tail -3) ); echo "$o2"
+so=$(echo "$o2" | grep -c '^ok'); sf=$(echo "$o2" | grep -c '^FAIL\|^--- FAIL\|^panic')
+echo "== demo with the change (must fail)"; o3=$(run_demo); echo "$o3"
+df=0; echo "$o3" | grep -q '^FAIL\|^--- FAIL\|^panic\|fatal error' && df=1
 git -C $W checkout -q -f . && git -C $W clean -fdq
+echo "VERIFY $1 base=$BASE applies=1 demo_base_ok=$db suites_ok=$so suites_failed=$sf demo_fails_with_change=$df"
